@@ -71,6 +71,10 @@ def state_specs(rng, ctx):
         out.append(({'kind': 'finite', 'sites': [SH(rng.choice(['Sz', 'parity', 'None']))] * L, 'chi_max': rng.choice([None, None, 2, 3])}, 'finite'))
     for L in [2, 3, 4, 5, 6]:
         out.append(({'kind': 'finite', 'sites': [F(rng.choice(['N', 'parity', 'None']))] * L, 'chi_max': rng.choice([None, 2, 3])}, 'finite'))
+    # conserve=None spin chains: the only ones on which sample_measurements can measure Sx / Sy (lists of different operators)
+    out.append(({'kind': 'finite', 'sites': [SH('None')] * 5, 'chi_max': None}, 'finite'))
+    out.append(({'kind': 'finite', 'sites': [SH('None')] * 4, 'chi_max': 3}, 'finite'))
+    out.append(({'kind': 'finite', 'sites': [spec('SpinSite', S=1.0, conserve='None')] * 3}, 'finite'))
     out.append(({'kind': 'finite', 'sites': [spec('SpinSite', S=1.0, conserve='parity')] * 4}, 'finite'))
     out.append(({'kind': 'finite', 'sites': [spec('SpinSite', S=1.0, conserve='Sz')] * 3}, 'finite'))
     out.append(({'kind': 'finite', 'sites': [spec('SpinHalfFermionSite', cons_N='N', cons_Sz='Sz')] * 3}, 'finite'))
@@ -237,7 +241,7 @@ def gen_measurements(rng, st, tag, env=False):
     if st['kind'] == 'finite':
         if any(s[1].get('conserve', s[1].get('cons_N')) not in (None, 'None') for s in sites):
             ms.append({'f': 'prob_charge', 'bond': rng.randint(1, L - 1) if L > 1 else 0})
-        for _ in range(4):
+        for _ in range(8 if (homog and cls[0] in ('SpinHalfSite', 'SpinSite') and sites[0][1].get('conserve') == 'None') else 4):
             m = {'f': 'sample', 'seed': rng.randrange(10 ** 6), 'complex_amplitude': rng.random() < 0.6}
             r = rng.random()
             if r < 0.3 and L >= 3:
